@@ -26,7 +26,12 @@ func (r *Runtime) newArrayObject() *arrayObject {
 func setArrayValues(a *arrayObject, values []Value) *arrayObject {
 	a.values = values
 	a.length = uint32(len(values))
-	a.objCount = len(values)
+	a.objCount = 0
+	for _, v := range values {
+		if v != nil {
+			a.objCount++
+		}
+	}
 	return a
 }
 
@@ -148,6 +153,7 @@ func (r *Runtime) arrayproto_pop(call FunctionCall) Value {
 			//a._setLengthInt(l, false)
 			a.values[l] = nil
 			a.values = a.values[:l]
+			a.objCount--
 		} else {
 			val = _undefined
 		}
@@ -1017,6 +1023,7 @@ func (r *Runtime) arrayproto_shift(call FunctionCall) Value {
 		a.values[len(a.values)-1] = nil
 		a.values = a.values[:len(a.values)-1]
 		a.length--
+		a.objCount--
 		return first
 	}
 	length := toLength(o.self.getStr("length", nil))
